@@ -169,7 +169,7 @@ def run_case(case, rec, mon=None):
     inf = compmon.info(comp)
     width = inf["ir_widths"][0] if inf and len(inf["ir_widths"]) == 1 else None
     fs, fl = comp.frame_shift, comp.frame_length
-    if width is None or width > 1024 or fs < 1:
+    if width is None or (width > 1024 and not case.get("realistic")) or fs < 1:
         rec.count("configurations_skipped_size")
         if own:
             monitor.detach_all()
@@ -198,7 +198,11 @@ def run_case(case, rec, mon=None):
 
 def plan(tier, seed):
     n = 1200 if tier == "quick" else 16000
-    return [{"a": a, "b": b, "seed": seed} for a, b in split(n, 16)]
+    specs = [{"a": a, "b": b, "seed": seed} for a, b in split(n, 16)]
+    if tier != "quick":
+        for j, cfg in enumerate(c for c in gen.realistic_cfgs() if c["name"] == "si"):
+            specs.append({"realistic": cfg, "idx": 10 ** 6 + j, "seed": seed})
+    return specs
 
 
 def run_shard(spec, rec):
@@ -208,6 +212,12 @@ def run_shard(spec, rec):
         return suite.run(__name__.rsplit(".", 1)[-1], spec, rec)
     mon = SiMonitor(rec)
     mon.attach()
+    if "realistic" in spec:
+        rec.count("realistic_configurations")
+        run_case({"idx": spec["idx"], "seed": spec["seed"], "cfg": spec["realistic"], "n_signals": 4, "realistic": True}, rec, mon)
+        monitor.report(rec)
+        monitor.detach_all()
+        return
     for i in range(spec["a"], spec["b"]):
         run_case({"idx": i, "seed": spec["seed"], "cfg": make_cfg(spec["seed"], i)}, rec, mon)
     monitor.report(rec)
